@@ -40,6 +40,8 @@ pub struct QState {
     pub max: u8,
     pub version: Option<(&'static str, String)>,
     pub extras: Vec<(String, String)>,
+    /// alternate spellings sent in addition to the primary one (the primary is used, these stay unused entries)
+    pub alternates: Vec<(String, String)>,
     pub players: Vec<QPlayer>,
     pub trailing_newline: bool,
 }
@@ -47,6 +49,24 @@ pub struct QState {
 impl QState {
     pub fn gen(rng: &mut Rng, ver: Ver, n_players: usize, n_extras: usize) -> Self {
         let short = n_players > 20;
+        let mut st = Self::gen_inner(rng, ver, n_players, n_extras, short);
+        // both spellings of a named variable: the primary one is decoded, the other is just another variable
+        for (primary, alt, key) in [("hostname", "sv_hostname", st.name_key), ("mapname", "map", st.map_key), ("maxclients", "sv_maxclients", st.max_key)] {
+            if key == primary && rng.chance(1, 5) {
+                let v = if alt == "sv_maxclients" { rng.b_u8().to_string() } else { rng.text(10, Q_FORBID) };
+                st.alternates.push((alt.to_string(), v));
+            }
+        }
+        if let Some(("version", _)) = st.version {
+            if rng.chance(1, 5) {
+                let v = rng.text(10, Q_FORBID);
+                st.alternates.push(("*version".to_string(), v));
+            }
+        }
+        st
+    }
+
+    fn gen_inner(rng: &mut Rng, ver: Ver, n_players: usize, n_extras: usize, short: bool) -> Self {
         Self {
             ver,
             name_key: if rng.bool() { "hostname" } else { "sv_hostname" },
@@ -57,6 +77,7 @@ impl QState {
             max: rng.b_u8(),
             version: rng.bool().then(|| (if rng.bool() { "version" } else { "*version" }, rng.text(20, Q_FORBID))),
             extras: extras(rng, n_extras, Q_FORBID).into_iter().filter(|(k, _)| !["map", "version", "*version", "sv_hostname", "sv_maxclients", "maxclients"].contains(&k.as_str())).collect(),
+            alternates: vec![],
             players: (0 .. n_players)
                 .map(|_| {
                     let name = rng.text(if short { 4 } else { 16 }, NAME_FORBID);
@@ -85,6 +106,7 @@ impl QState {
             kv.push((k.to_string(), v.clone()));
         }
         kv.extend(self.extras.iter().cloned());
+        kv.extend(self.alternates.iter().cloned());
         kv
     }
 
